@@ -522,6 +522,17 @@ class FnOrder:
                     # the source must not be re-bound between the assert and the use
                     if not self._rebound_between(g, n, src):
                         return True
+                # guard clause: `if len(s) > 1: return ..` (or raise / continue / break) before the use -
+                # the use is reached only along the arm on which the set has one element
+                if isinstance(g.stmt, ast.If) and self.cfg.dominates(g, n) and not any(a is g.stmt for a in A.ancestors(node)):
+                    wrong = None
+                    if is_single(g.stmt.test, False):
+                        wrong = getattr(g, "true_succ", None)
+                    elif is_single(g.stmt.test, True) and g.stmt.orelse:
+                        wrong = getattr(g, "false_succ", None)
+                    if wrong is not None and n not in self.cfg.reachable(wrong, avoid=lambda x: x is g, include_src=True):
+                        if not self._rebound_between(g, n, src):
+                            return True
         return False
 
     def _rebound_between(self, a, b, src: ast.AST) -> bool:
